@@ -662,6 +662,7 @@ func TestCheck(t *testing.T) {
 			"moves that would at once block on runStateLock while a blocked goroutine holds it (observed with a TryLock accessor added by the build overlay) are delayed until the lock is free - waiting for a mutex has no effect of its own; when nothing but such moves is left the execution is a suspected deadlock, and it becomes a verdict only after it was re-run 5 times with the move really made and each time 60 s passed without progress and the goroutine dump showed every goroutine of the bubble in a channel or mutex wait",
 			"Stop callers are interchangeable and start in index order; a run that only a Stop can end is not granted more than 4 sections while a Stop caller has not started",
 			"the late-answer schedule depends on Go's random choice between two ready select cases inside nestedArchetype.Abort, which no scheduler controls: that one forced schedule is repeated 48 times per run with fresh contexts (a defect on one side of the coin is missed with probability 2^-48); it is sampled, not enumerated, and not covered by 'exhaustive'",
+			"MPCalContext.abort/commit/cleanupResources walk Go maps; where the order matters for a verdict (the rollback of a section in flight that contains a resource whose Abort panics) the schedule is repeated 16 times per run with fresh contexts: a sampled map order, not covered by 'exhaustive'",
 			"a panic in a goroutine spawned by the code under test kills the shard worker; the worker announces every scheduling decision, and the parent reports the death as a violation whose witness (replayed in a child process) is the announced execution",
 			"the nested context runs on its own goroutine inside the bubble, driven by the request/ack protocol; virtual time advances only when nothing else can move, or as an explored alternative while Run waits for the nested context to shut down",
 		}
@@ -859,6 +860,19 @@ func TestCheck(t *testing.T) {
 				}
 			}
 		}
+		// the rollback of a section in flight walks its resources in Go map order: the schedules in which a resource
+		// whose Abort panics (SingleOutputChan after a send) has siblings are repeated, not enumerated
+		mapOrderReport := []any{}
+		for _, mc := range mapOrderConfigs() {
+			f, rep := lateRounds(t, mc, mapOrderN)
+			evals += int64(mapOrderN)
+			mapOrderReport = append(mapOrderReport, rep)
+			if f != nil {
+				if _, dup := viol[f.Key]; !dup {
+					viol[f.Key] = hres.Viol{Key: f.Key, What: f.What, Replay: replayCase{Cfg: mc, Rounds: mapOrderN}}
+				}
+			}
+		}
 		keys := make([]string, 0, len(viol))
 		for k := range viol {
 			keys = append(keys, k)
@@ -892,6 +906,7 @@ func TestCheck(t *testing.T) {
 			"strict_confirmations":       confirm,
 			"crash_probe":                probeReport,
 			"late_answer_rounds":         lateReport,
+			"map_order_rounds":           mapOrderReport,
 			"leaked_bubbles":             leakedB + bubble.Leaked(),
 			"shard_workers":              env.Workers,
 			"bounds":                     "endings {Done, Stop only, assertion, Error label, resource error in body, resource error in PreCommit, panic in the body} x resource mixes {2 plain, plain with failing Close, IncMap with realised elements, HashMap with 3 configured elements, nested-archetype resource with an instrumented inner resource} plus the nested mix with a nested archetype that ends on its own (Done / error / assertion, after serving 0 or 1 outer sections; outer section 2 using or not using the nested resource; outer ending Done or Stop-only; 0-2 Stop callers) x 0-3 (thorough 0-4) Stop callers started at every scheduling point (before Run, at each section start, inside each Close, after Run, around a second Run) x with/without a second Run call, plus Stop callers on a context whose Run is never called; every interleaving, no preemption bound",
@@ -1077,6 +1092,16 @@ func TestCrashProbe(t *testing.T) {
 
 const lateN = 48
 
+const mapOrderN = 16
+
+func mapOrderConfigs() []Config {
+	return []Config{
+		{End: "assert", Mix: "sendchan", Stops: 0},
+		{End: "body-panic", Mix: "sendchan", Stops: 0},
+		{End: "reserr-precommit", Mix: "sendchan", Stops: 1},
+	}
+}
+
 func lateConfigs() []Config {
 	out := []Config{
 		{End: "done", Mix: "nested", Stops: 0, Late: true, Skip1: true},
@@ -1166,14 +1191,21 @@ func lateRoundsHere(t *testing.T, cfg Config, rounds int) (*Failure, map[string]
 			// ground truth that the forced point was reached: the read timed out, the nested system answered and
 			// ended before the outer section aborted
 			txt := strings.Join(det, "\n")
-			if strings.Contains(txt, "R:read(r)!"+distsys.ErrCriticalSectionAborted.Error()) && strings.Contains(txt, "R:abort(r)") {
+			if cfg.Late && strings.Contains(txt, "R:read(r)!"+distsys.ErrCriticalSectionAborted.Error()) && strings.Contains(txt, "R:abort(r)") {
+				reached++
+			}
+			if !cfg.Late && strings.Contains(txt, "R:abort(r)") { // the rollback of the section in flight reached the SingleOutputChan
 				reached++
 			}
 		}
 		if r.fail != nil {
 			failed++
 			if first == nil {
-				first = &Failure{"late-answer/" + r.fail.Key, fmt.Sprintf("round %d of the late-answer schedule: %s [config %s]", i+1, r.fail.What, cfg.Name())}
+				prefix, what := "late-answer/", "the late-answer schedule"
+				if !cfg.Late {
+					prefix, what = "map-order/", "the rollback schedule (sampled Go map order)"
+				}
+				first = &Failure{prefix + r.fail.Key, fmt.Sprintf("round %d of %s: %s [config %s]", i+1, what, r.fail.What, cfg.Name())}
 				rep["first_failure_detail"] = r.detail
 			}
 		}
@@ -1181,6 +1213,9 @@ func lateRoundsHere(t *testing.T, cfg Config, rounds int) (*Failure, map[string]
 	rep["reached_the_coin"] = reached
 	rep["failed_rounds"] = failed
 	rep["note"] = fmt.Sprintf("sampled coin (Go's select between the buffered late answer and ctxHasStopped): a defect on one side is missed with probability 2^-%d", rounds)
+	if !cfg.Late {
+		rep["note"] = fmt.Sprintf("sampled Go map order: MPCalContext walks the resources of the section in flight in map order when it rolls back; %d repetitions of the same schedule with fresh contexts, a defect that needs one resource to come before another is missed with probability about 2^-%d", rounds, rounds)
+	}
 	return first, rep
 }
 
